@@ -894,6 +894,24 @@ def systematic(tier):
             s = dict(base_qm("qmqpd", body=body), qq=q)
             for j in range(len(qmqp_stream(s, {})) + 1):
                 out.append(dict(s, cut=j))
+    # (e2) envelopes that fill qmail.c's 1024-byte buffer exactly after the k-th recipient (2 + |sender| + sum(|rcpt| + 2) = 1024): the
+    # flush boundary falls between two envelope records, so a failure after it (disconnect, over-long or NUL recipient) reaches the real
+    # qmail-queue as "EOF exactly after an address" - it must still abort (added by the lead after seeded change C07-B)
+    al_sender = b"s" * 10 + b"@x.example.z"                      # 22 bytes
+    al_rcpts = [b"r%02d" % i + b"a" * 23 + b"@a.example.." for i in range(25)]      # 25 x 38 bytes -> 2 + 22 + 25*40 = 1024
+    assert 2 + len(al_sender) + sum(len(r) + 2 for r in al_rcpts) == 1024
+    for d in ("qmtpd", "qmqpd"):
+        for q in ({"mode": "real"}, {"mode": "qq", "exit": 0}):
+            s = dict(base_qm(d, rcpts=tuple(al_rcpts) + (b"last1@a.example", b"last2@a.example")), qq=q)
+            s["msgs"][0]["sender"] = {"a": J(al_sender)}
+            L = len(qmtp_stream(s, {})) if d == "qmtpd" else len(qmqp_stream(s, {}))
+            for j in range(max(0, L - 90), L + 1):
+                out.append(dict(s, cut=j))
+            for bad in ({"pat": J(b"u@a.example."), "len": 1003}, {"a": J(b"a\0b@a.example")}):
+                s2 = dict(base_qm(d, rcpts=tuple(al_rcpts) + (b"last1@a.example",)), qq=q)
+                s2["msgs"][0]["sender"] = {"a": J(al_sender)}
+                s2["msgs"][0]["rcpts"].append(bad)
+                out.append(s2)
     # (f) framing mutations on every field
     for d in ("qmtpd", "qmqpd"):
         for f in ("m", "s", "R", 0, 1, "O"):
